@@ -151,6 +151,15 @@ def run_component(prop, tier, replay, C):
         ex.shutdown()
     if not cov["samples"]:
         cov["samples"] = [{"note": "replay"}]
+    if prop == "C16" and not replay and not broken:
+        # cache level: when the write buffer is full the writer runs maintenance itself and its own event must still reach
+        # the policies (afterWriteTask); small buffer + foreign mutex holder, audited by WRAudit.tla
+        import wrcheck
+        wcov, wviol, wbroken = wrcheck.run("C16", tier, None, collect_only=True)
+        cov["cache_level_overflow_audits"] = wcov["traces_validated_against_impl"]
+        cov["traces_validated_against_impl"] += wcov["traces_validated_against_impl"]
+        broken += wbroken
+        violations += wviol
     printed = set()
     for fd, x in known:
         if fd["id"] not in printed:
